@@ -50,3 +50,7 @@ pub fn heap_range() -> Range<Address> {
 pub fn available_range() -> Range<Address> {
     vm_layout().available_start()..vm_layout().available_end()
 }
+
+/// Verification hook: names the crate-private chunk-state mmapper for `util::verif::c30`.
+#[cfg(feature = "verif")]
+pub type VerifChunkStateMmapper = self::mmapper::csm::ChunkStateMmapper;
